@@ -113,6 +113,8 @@ class Gen:
             return {"VNone": lambda: C["VNone"](), "VBool": lambda: C["VBool"](r.random() < 0.5), "VStr": lambda: C["VStr"](self.gen("Str")),
                     "VHtml": lambda: C["VHtml"](self.gen("Str")), "VInt": lambda: C["VInt"](r.choice([0, 3, -1])), "VFloat": lambda: C["VFloat"](r.choice([0, 1])),
                     "VOther": lambda: C["VOther"](1)}[k]()
+        if sort == "OptStr":
+            return C["NoStr"]() if r.random() < 0.3 else C["SomeStr"](r.choice(["lib", "x/y", "l"]))
         if sort == "ArgDict":
             keys = r.sample(["class", "class_", "id", "data_x", "x__", "style", "a-b", "a_b"], r.choice([0, 1, 2, 3]))
             return mk_list("ArgDict", [(k, self.gen("AttrArg")) for k in keys])
@@ -268,10 +270,61 @@ def user_object_env():
     return py, js
 
 
-def differential(src, c, n=200, seed=0, atoms=None, repo=None, depth=2, extra_requires=()):
-    from .spec import tagify as _tg
+def bind_real_env():
+    """interpret the abstract Env functions of the executable spec the way hv.realrun builds the corresponding real objects"""
+    from .spec import tagify as _tg, document as _doc
     py_env, js_env = user_object_env()
     _tg.BIND_T.update(py_env)
+    C = {n: c.pyclass for n, c in REG.ctors.items()}
+    # realrun.dec builds HTMLDependency(name, version, head=TagList(HTML("<!--uid-->")) if uid else None): its as_html_tags() is that head
+    _doc.BIND_D["depTags"] = lambda d, lp, iv: mk_list("NodeList", [C["Raw"](f"<!--{d.uid}-->")] if d.uid else [])
+    _doc.BIND_D["verStr"] = lambda v: f"0.{v}" if v >= 0 else f"0.0.dev{1000000 + v}"
+    return py_env, js_env
+
+
+def differential_script(src, c, n=200, seed=0, atoms=None, repo=None, extra_requires=()):
+    """differential replay of a harness contract through its DiffSpec: a realrun script builds the receiver and calls the real
+    method; the last step's value is compared with the executable spec"""
+    d = c.diff
+    py_env, js_env = bind_real_env()
+    g = Gen(seed, atoms)
+    cases, tries = [], 0
+    while len(cases) < n and tries < n * 20:
+        tries += 1
+        vals = d.gen(g) if d.gen else {p: g.gen(s, 2) for p, s in d.params}
+        try:
+            if all(eval_spec(r, dict(vals)) for r in list(d.requires) + list(extra_requires)):
+                cases.append(vals)
+        except RecursionError:
+            continue
+    jobs = [{"kind": "script", "steps": d.steps({k: to_json(v) for k, v in vals.items()}), "expansions": js_env, "stop_on_exc": True} for vals in cases]
+    res = run_real(jobs, repo)
+    mism = []
+    for v, r in zip(cases, res):
+        inp = {k: to_json(x) for k, x in v.items()}
+        if "harness_error" in r:
+            mism.append({"input": inp, "harness_error": r["harness_error"]})
+            continue
+        last = r["trace"][-1]          # the script stops at the first exception
+        exp_exc = next((exc for exc, cond in d.raises if eval_spec(cond, dict(v))), None)
+        if exp_exc is not None:
+            if last.get("exc") != exp_exc:
+                mism.append({"input": inp, "expected": f"raises {exp_exc}", "observed": {k: last[k] for k in last if k != "env"}})
+            continue
+        if "exc" in last:
+            mism.append({"input": inp, "expected": "no exception", "observed": {k: last[k] for k in last if k != "env"}})
+            continue
+        if d.expected is not None:
+            want = to_json(eval_spec(d.expected, dict(v)))
+            if canon(last["ok"], d.ret_sort) != canon(want, d.ret_sort):
+                mism.append({"input": inp, "expected": want, "observed": last["ok"]})
+    return len(cases), mism
+
+
+def differential(src, c, n=200, seed=0, atoms=None, repo=None, depth=2, extra_requires=()):
+    if getattr(c, "diff", None) is not None:
+        return differential_script(src, c, n, seed, atoms, repo, extra_requires)
+    py_env, js_env = bind_real_env()
     """Run the real function of contract c on n generated inputs satisfying `requires` and compare with
     the executable spec.  Returns (tested, mismatches[list of dict])."""
     g = Gen(seed, atoms)
